@@ -53,7 +53,10 @@ def run_case(case):
                     elif k == 'L':
                         r = p.sendline(op[1]); rets.append(('L', r))
                     elif k == 'W':
-                        p.writelines(op[1])
+                        # writelines takes any iterable: a list, a tuple, a generator, an iterator, a map object (each can be walked once only)
+                        form = case.get('wl_form', 'list')
+                        seq = {'list': list, 'tuple': tuple, 'iter': iter, 'gen': (lambda l: (x for x in l)), 'map': (lambda l: map(lambda x: x, l))}[form](op[1])
+                        p.writelines(seq)
                     elif k == 'C':
                         r = p.sendcontrol(op[1]); rets.append(('C', r))
                     elif k == 'E':
@@ -333,8 +336,9 @@ def gen_sends(ctx, logs_variants):
                 ops.append(('L', v))
             elif r < 0.6:
                 vs = [rand_text(rng, 'u').replace('€', 'e') for _ in range(rng.randrange(0, 4))]
-                if enc is None and rng.random() < 0.5:
-                    vs = [v.encode('utf-8') for v in vs]
+                if enc is None:
+                    how = rng.random()
+                    vs = [v.encode('utf-8') if (how < 0.4 or (how < 0.7 and rng.random() < 0.5)) else v for v in vs]       # all bytes / mixed / all text
                 ops.append(('W', vs))
             elif r < 0.75 and tr == 'pty' and enc != 'utf-16':
                 ops.append(('C', rng.choice('cdgzCZ[\\]^_?@{1 ')))
@@ -343,7 +347,8 @@ def gen_sends(ctx, logs_variants):
             else:
                 chunk = rng.choice(TEXTS).encode(enc or 'utf-8', 'ignore') or b'x'
                 ops.append(('R', chunk))          # whole characters only: the stream stays well-formed
-        case = dict(transport=tr, encoding=enc, errors='replace' if enc == 'utf-16' else 'strict', ops=ops, logs=rng.choice(logs_variants))
+        case = dict(transport=tr, encoding=enc, errors='replace' if enc == 'utf-16' else 'strict', ops=ops, logs=rng.choice(logs_variants),
+                    wl_form=rng.choice(['list', 'list', 'tuple', 'iter', 'gen', 'map']))
         want, _ = expected_peer(case)
         case['expect_peer_len'] = len(want)
         cases.append(case)
@@ -359,8 +364,17 @@ def gen_sends(ctx, logs_variants):
     # stateful encoders (a BOM / shift state must be written once per stream, not once per call), on every transport
     for tr in TRANSPORTS:
         for enc in (['utf-16', 'utf-8-sig', 'utf-32'] if not ctx.quick() else ['utf-16', 'utf-8-sig']):
-            ops = [('S', 'ab'), ('L', 'c\u00e9'), ('W', ['x', 'y\u20ac']), ('S', ''), ('L', ''), ('S', 'z')]
-            case = dict(transport=tr, encoding=enc, errors='strict', ops=ops, logs=logs_variants[0])
+            for ops in ([('S', 'ab'), ('L', 'c\u00e9'), ('W', ['x', 'y\u20ac']), ('S', ''), ('L', ''), ('S', 'z')],
+                        [('S', ''), ('S', 'hi'), ('W', ['', 'x'])],              # the very first thing sent is an empty string
+                        [('W', ['', 'a\u00e9']), ('S', ''), ('L', 'b')]):
+                case = dict(transport=tr, encoding=enc, errors='strict', ops=ops, logs=logs_variants[0], wl_form='gen')
+                want, _ = expected_peer(case)
+                case['expect_peer_len'] = len(want)
+                cases.append(case)
+    # bytes mode, text and bytes elements mixed, given as a one-shot iterable
+    for tr in TRANSPORTS:
+        for form in ('gen', 'iter', 'map'):
+            case = dict(transport=tr, encoding=None, ops=[('W', [b'abc', '123', 'caf\u00e9', b'xyz']), ('S', b'!')], logs=('logfile_send',), wl_form=form)
             want, _ = expected_peer(case)
             case['expect_peer_len'] = len(want)
             cases.append(case)
